@@ -338,3 +338,56 @@ def _guarded(func, name, use, binders):
             if not rebound:
                 return True
     return False
+
+
+def stale_derived(func):
+    """(def stmt, store stmt, use stmt, X, m): `m = g(.., X, ..)` is later used to index X itself
+    (`X[m]`) although X was updated in place (element store) on a path between the derivation and
+    the use, with no re-derivation of m in between: the mask / index describes the old contents."""
+    from .cfg import CFG
+    from .core import assigned_targets, names_in, stmts_of
+    out = []
+    sts = list(stmts_of(func))
+    defs = [(st, st.targets[0].id, names_in(st.value)) for st in sts
+            if isinstance(st, ast.Assign) and len(st.targets) == 1 and
+            isinstance(st.targets[0], ast.Name)]
+    stores = []
+    for st in sts:
+        for t in assigned_targets(st):
+            if isinstance(t, ast.Subscript) and isinstance(t.value, ast.Name):
+                stores.append((st, t.value.id))
+    pairs = 0
+    cfg = None
+    for d, mname, srcs in defs:
+        for u in sts:
+            if u is d:
+                continue
+            hits = {n.value.id for n in ast.walk(u)
+                    if isinstance(n, ast.Subscript) and isinstance(n.ctx, ast.Load) and
+                    isinstance(n.value, ast.Name) and n.value.id in srcs and
+                    isinstance(n.slice, ast.Name) and n.slice.id == mname}
+            for X in sorted(hits):
+                pairs += 1
+                for s, sx in stores:
+                    if sx != X or s is d or s is u:
+                        continue
+                    if cfg is None:
+                        cfg = CFG(func)
+
+                    def redef(nd, mname=mname, d=d):
+                        st = nd.stmt
+                        return st is not None and any(
+                            isinstance(t, ast.Name) and t.id == mname for t in assigned_targets(st))
+
+                    from_d = set()
+                    for dn in cfg.nodes_of(d):
+                        from_d |= {x.id for x in cfg.reachable_from([dn], blocked=redef)}
+                    sn = [x for x in cfg.nodes_of(s) if x.id in from_d]
+                    if not sn:
+                        continue
+                    from_s = set()
+                    for a in sn:
+                        from_s |= {x.id for x in cfg.reachable_from([a], blocked=redef)}
+                    if any(x.id in from_s for x in cfg.nodes_of(u)):
+                        out.append((d, s, u, X, mname))
+    return out, pairs
